@@ -78,6 +78,13 @@ func dependsOnIndexValue(v, key ssa.Value, depth int, seen map[ssa.Value]bool) b
 				}
 			}
 		}
+		// a helper that returns one of its slice parameters, possibly extended
+		// by appends (appendMissing(list, extra))
+		if f := x.Call.StaticCallee(); f != nil && f.Blocks != nil {
+			if k := extendedParam(f); k >= 0 && k < len(x.Call.Args) {
+				return dependsOnIndexValue(x.Call.Args[k], key, depth+1, seen)
+			}
+		}
 	case *ssa.Extract:
 		return dependsOnIndexValue(x.Tuple, key, depth+1, seen)
 	case *ssa.Phi:
@@ -104,4 +111,65 @@ func dependsOnIndexValue(v, key ssa.Value, depth int, seen map[ssa.Value]bool) b
 		}
 	}
 	return false
+}
+
+// extendedParam: every value f returns as its first result is its parameter #k
+// or that parameter extended by appends (through phis and re-slicing); k or -1.
+func extendedParam(f *ssa.Function) int {
+	res := -1
+	var base func(v ssa.Value, depth int, seen map[ssa.Value]bool) bool
+	base = func(v ssa.Value, depth int, seen map[ssa.Value]bool) bool {
+		if depth > 12 {
+			return false
+		}
+		if seen[v] {
+			return true
+		}
+		seen[v] = true
+		switch x := v.(type) {
+		case *ssa.Parameter:
+			for i, p := range f.Params {
+				if p == x {
+					if res >= 0 && res != i {
+						return false
+					}
+					res = i
+					return true
+				}
+			}
+			return false
+		case *ssa.Phi:
+			for _, e := range x.Edges {
+				if !base(e, depth+1, seen) {
+					return false
+				}
+			}
+			return true
+		case *ssa.Slice:
+			return base(x.X, depth+1, seen)
+		case *ssa.Call:
+			if bi, ok := x.Call.Value.(*ssa.Builtin); ok && bi.Name() == "append" && len(x.Call.Args) > 0 {
+				return base(x.Call.Args[0], depth+1, seen)
+			}
+		}
+		return false
+	}
+	any := false
+	for _, b := range f.Blocks {
+		ret, ok := b.Instrs[len(b.Instrs)-1].(*ssa.Return)
+		if !ok {
+			continue
+		}
+		if len(ret.Results) == 0 {
+			return -1
+		}
+		any = true
+		if !base(ret.Results[0], 0, map[ssa.Value]bool{}) {
+			return -1
+		}
+	}
+	if !any {
+		return -1
+	}
+	return res
 }
